@@ -283,6 +283,10 @@ struct Driver {
   Result (*run_case)(const std::string& prop, const Case&);
   // optional: render a case in words (op names) for the evidence samples
   std::string (*pretty)(const Case&) = nullptr;
+  // replay runs the case this many times in one process and fails if any repetition fails.  For an
+  // operation that is required to keep no state between calls this is the reproducible unit: a
+  // stateless implementation answers every repetition alike, so repeating can never create an alarm.
+  unsigned replay_repeat = 1;
 };
 
 static inline int driver_main(int argc, char** argv, const Driver& drv) {
@@ -312,6 +316,10 @@ static inline int driver_main(int argc, char** argv, const Driver& drv) {
     Case c;
     if (!read_case_file(replay, c)) { fprintf(stderr, "cannot read %s\n", replay.c_str()); return 2; }
     Result r = drv.run_case(ctx.prop, c);
+    for (unsigned k = 1; k < drv.replay_repeat && r.ok && !r.skipped; k++) {
+      r = drv.run_case(ctx.prop, c);
+      if (!r.ok) r.msg = "(repetition " + std::to_string(k + 1) + " of the same case in one process; the first " + std::to_string(k) + " passed) " + r.msg;
+    }
     if (r.skipped) { printf("REPLAY skipped (outside the decidable domain)\n"); return 0; }
     printf("REPLAY %s: %s\n", r.ok ? "pass" : "FAIL", r.msg.c_str());
     return r.ok ? 0 : 1;
